@@ -281,25 +281,23 @@ Proof.
       now apply m_inter_ok. }
     destruct (c_test c) eqn:T; try discriminate Dt; now apply Hgen.
   - (* set-difference *)
-    apply andb_true_iff in D as [D Dt]. apply andb_true_iff in D as [L1 L2].
+    apply andb_true_iff in D as [L1 L2].
     exists (m_set_difference c). split; [unfold m_call; now rewrite F|].
     unfold m_set_difference. replace (is_list_arg (c_seq c)) with true by (destruct (c_seq c); try discriminate; reflexivity).
     replace (is_list_arg (c_seq2 c)) with true by (destruct (c_seq2 c); try discriminate; reflexivity). cbn [andb].
-    assert (ignore_test_not (c_test c) = c_test c) as -> by (destruct (c_test c); try discriminate; reflexivity).
     unfold spec_ok. rewrite F. unfold set_difference_ok.
     assert (filter (fun x => negb (existsb (fun k2 => test2 (c_test c) (key_app (c_key c) x) k2) (map (key_app (c_key c)) (elems (c_seq2 c))))) (elems (c_seq c))
             = filter (fun x => negb (existsb (fun y => s_mt c x y) (elems (c_seq2 c)))) (elems (c_seq c))) as ->
       by (apply filter_ext; intros x; rewrite existsb_map_keys; reflexivity).
     apply andb_true_iff. split; apply forallb_forall; intros z Hz; now apply mem_In.
   - (* subsetp *)
-    apply andb_true_iff in D as [D Dt]. apply andb_true_iff in D as [D N2]. apply andb_true_iff in D as [D N1].
     apply andb_true_iff in D as [L1 L2].
     exists (m_subsetp c). split; [unfold m_call; now rewrite F|].
     unfold m_subsetp, spec_ok, s_call. rewrite F.
-    destruct (c_seq c) eqn:S1; try discriminate; destruct (c_seq2 c) eqn:S2; try discriminate. cbn [elems].
-    assert (ignore_test_not (c_test c) = c_test c) as -> by (destruct (c_test c); try discriminate; reflexivity).
-    assert (forallb (fun x => existsb (fun k2 => test2 (c_test c) (key_app (c_key c) x) k2) (map (key_app (c_key c)) l0)) l
-            = s_subsetp (s_mt c) l l0) as ->
+    replace (is_list_arg (c_seq c)) with true by (destruct (c_seq c); try discriminate; reflexivity).
+    replace (is_list_arg (c_seq2 c)) with true by (destruct (c_seq2 c); try discriminate; reflexivity). cbn [andb].
+    assert (forallb (fun x => existsb (fun k2 => test2 (c_test c) (key_app (c_key c) x) k2) (map (key_app (c_key c)) (elems (c_seq2 c)))) (elems (c_seq c))
+            = s_subsetp (s_mt c) (elems (c_seq c)) (elems (c_seq2 c))) as ->
       by (unfold s_subsetp; apply forallb_ext'; intros x; rewrite existsb_map_keys; reflexivity).
-    destruct (s_subsetp (s_mt c) l l0); reflexivity.
+    destruct (s_subsetp (s_mt c) (elems (c_seq c)) (elems (c_seq2 c))); reflexivity.
 Qed.
